@@ -88,6 +88,35 @@ theorem join_admits_current_generation (hr : Reachable n nthreads stride s) {t c
       ∃ l', s'.threads = s.threads.set t l' ∧ participating l' = true ∧ l'.heldGen = s'.gen :=
   join_step_current hr hl hpc hs hne
 
+/-! ### the order of the control-word accesses when joining a resize (generated from the source)
+
+`Proto/Resize` models the two join paths access by access (finding F6 was an abstraction of exactly
+this order). The order of the model's program counters is the order in the source:
+* `add_count`: `size_ctl` is loaded **before** `table` (then `next_table`, `transfer_index`), and
+  the join CAS is on that first word — so a word of another generation fails the CAS
+  (`acLoadTable → acLoadNext → acLoadIndex → casJoin` in the model);
+* `help_transfer`: `next_table`, `table` (the validation), then `size_ctl`, `transfer_index`, CAS
+  (`helpCheckNext → helpCheckTable → helpLoadSc → helpLoadIndex → casJoin`). -/
+section AccessOrder
+open Flurry.Gen
+
+/-- position of the first occurrence -/
+def firstIdx (l : List String) (x : String) : Nat := (l.findIdx? (· == x)).getD l.length
+
+theorem add_count_access_order :
+    let l := addCountAccessOrder
+    firstIdx l "load:size_ctl" < firstIdx l "load:table" ∧
+    firstIdx l "load:table" < firstIdx l "load:next_table" ∧
+    firstIdx l "load:next_table" < firstIdx l "load:transfer_index" ∧
+    firstIdx l "load:transfer_index" < firstIdx l "cas:size_ctl" ∧
+    firstIdx l "cas:size_ctl" < l.length := by decide
+
+theorem help_transfer_access_order :
+    helpTransferAccessOrder = ["load:next_table", "load:table", "load:size_ctl", "load:transfer_index", "cas:size_ctl"] := by
+  decide
+
+end AccessOrder
+
 /-! ### the order of `transfer`'s stores per bin (generated from the source)
 
 Moving one bin is, under the bin's lock: build the two new bins, **store them into the next table,
